@@ -115,7 +115,7 @@ def run_tlc(module, cfg_path, workers=8, timeout=600, simulate=None, depth=None,
     scratch = tempfile.mkdtemp(prefix='verif_tlc_')
     try:
         os.makedirs(os.path.join(scratch, 'jtmp'), exist_ok=True)
-        cmd = ['java', '-XX:+UseParallelGC', f'-Xmx{heap}', f'-Djava.io.tmpdir={scratch}/jtmp']
+        cmd = ['java', '-XX:+UseParallelGC', '-Xss64m', f'-Xmx{heap}', f'-Djava.io.tmpdir={scratch}/jtmp']
         if deque:
             cmd.append('-Dtlc2.tool.queue.IStateQueue=StateDeque')
         if library:
